@@ -12,10 +12,12 @@ stdout: [ per program
    "words":  [bool]  does the real parser accept <root> with exactly these children (minimal content)?
   }]
 
-Pipeline: DtdParser.parse -> DtdMapper.map -> ClassContainer.process -> DependenciesResolver
-(ordering) -> real Filters (class_name, field_name, field_type, field_definition, constant_name,
-field_default_value, default_imports ...) assembled by a ~40 line stand-in for class.jinja2 /
-enum.jinja2 / module.jinja2 (Jinja cannot run here) -> exec -> XmlContext/XmlParser/XmlSerializer.
+Generation goes through the shared runner harness/codegen_run.py: the REAL
+ResourceTransformer.process on a .dtd URI (DtdParser, DtdMapper, ClassContainer.process,
+CodeWriter, DataclassGenerator.render with the stand-in templates of render_standin.py,
+validate_imports), then a real import of the generated package, XmlContext / XmlParser /
+XmlSerializer on the generated classes.  DtdParser.parse / DtdMapper.map are additionally called
+directly to export their outputs for the correspondence with Model/Dtd.v.
 """
 import io
 import itertools
@@ -25,80 +27,20 @@ import types
 
 from lxml import etree
 
-from xsdata.codegen.container import ClassContainer
-from xsdata.codegen.mappers.dtd import DtdMapper
-from xsdata.codegen.parsers.dtd import DtdParser
-from xsdata.codegen.resolver import DependenciesResolver
-from xsdata.formats.dataclass.context import XmlContext
-from xsdata.formats.dataclass.filters import Filters
-from xsdata.formats.dataclass.parsers import XmlParser
-from xsdata.formats.dataclass.parsers.config import ParserConfig
-from xsdata.formats.dataclass.serializers import XmlSerializer
-from xsdata.models.config import GeneratorConfig
+import os
+
+sys.path.insert(0, os.path.dirname(os.path.abspath(__file__)))
+import codegen_run as CR  # noqa: E402
+
+from xsdata.codegen.mappers.dtd import DtdMapper  # noqa: E402
+from xsdata.codegen.parsers.dtd import DtdParser  # noqa: E402
+from xsdata.formats.dataclass.context import XmlContext  # noqa: E402
+from xsdata.formats.dataclass.parsers import XmlParser  # noqa: E402
+from xsdata.formats.dataclass.parsers.config import ParserConfig  # noqa: E402
+from xsdata.formats.dataclass.serializers import XmlSerializer  # noqa: E402
 
 _ctr = itertools.count()
 MAXSIZE = sys.maxsize
-
-
-# ------------------------------------------------------------------ stand-in renderer
-def indent(text, n):
-    pad = " " * n
-    return "\n".join((pad + ln) if ln.strip() else ln for ln in text.split("\n"))
-
-
-def render_class(f, obj, level, module_namespace, parent_namespace=None):
-    """class.jinja2 / enum.jinja2 without docstrings, statement for statement."""
-    if obj.is_enumeration:
-        lines = [f"class {f.class_name(obj.name)}(Enum):"]
-        for a in obj.attrs:
-            lines.append(f"    {f.constant_name(a.name, obj.name)} = {f.field_default_value(a, obj.ns_map)}")
-        return "\n".join(lines)
-    parent_namespace = obj.namespace if obj.namespace is not None else parent_namespace
-    class_name = f.class_name(obj.name)
-    global_type = level == 0 and not obj.local_type
-    local_name = obj.meta_name or obj.name
-    local_name = None if class_name == local_name or not global_type else local_name
-    bases = ", ".join(f.class_bases(obj, class_name))
-    target_namespace = obj.target_namespace if global_type and module_namespace != obj.target_namespace else None
-    out = list(f.class_annotations(obj, class_name))
-    out.append(f"class {class_name}" + (f"({bases})" if bases else "") + ":")
-    body = []
-    if local_name or obj.is_nillable or obj.namespace is not None or target_namespace or (obj.local_type and level == 0):
-        body.append("class Meta:")
-        if obj.local_type:
-            body.append("    global_type = False")
-        if local_name:
-            body.append(f"    name = {json.dumps(local_name)}")
-        if obj.is_nillable:
-            body.append("    nillable = True")
-        if obj.namespace is not None:
-            body.append(f"    namespace = {json.dumps(obj.namespace)}")
-        if target_namespace and target_namespace != obj.namespace:
-            body.append(f"    target_namespace = {json.dumps(target_namespace)}")
-    elif not obj.attrs:
-        body.append("pass")
-    for a in obj.attrs:
-        body.append(f"{f.field_name(a.name, obj.name)}: {f.field_type(obj, a)} = "
-                    f"{f.field_definition(obj, a, parent_namespace)}")
-    for inner in obj.inner:
-        body.append(render_class(f, inner, level + 1, module_namespace, parent_namespace))
-    out.append(indent("\n".join(body), 4))
-    return "\n".join(out)
-
-
-def render_module(f, classes):
-    """generator.render_module + module.jinja2 for a single-module package."""
-    packages = {obj.qname: obj.target_module for obj in classes}
-    resolver = DependenciesResolver(registry=packages)
-    nss = {x.target_namespace for x in classes}
-    module_namespace = classes[0].target_namespace if len(nss) == 1 else None
-    resolver.process(classes)
-    ordered = resolver.sorted_classes()
-    output = "\n\n".join(render_class(f, c, 0, module_namespace) for c in ordered)
-    src = f.default_imports(output) + "\n"
-    if module_namespace:
-        src += f"__NAMESPACE__ = {json.dumps(module_namespace)}\n"
-    return src + "\n" + output + "\n"
 
 
 # ------------------------------------------------------------------ exporters
@@ -218,24 +160,8 @@ def meta_view(ctx, clazz):
 STRICT = dict(fail_on_unknown_properties=True, fail_on_unknown_attributes=True, fail_on_converter_warnings=True)
 
 
-def all_classes(mod):
-    import dataclasses
-    out = []
-
-    def rec(c):
-        if dataclasses.is_dataclass(c):
-            out.append(c)
-        for v in vars(c).values():
-            if isinstance(v, type) and v.__module__ == c.__module__ and v.__qualname__.startswith(c.__qualname__ + "."):
-                rec(v)
-
-    for v in vars(mod).values():
-        if isinstance(v, type) and v.__module__ == mod.__name__ and "." not in v.__qualname__:
-            rec(v)
-    return out
-
-
 def run_program(p):
+    import dataclasses
     res = {}
     res["lxml"] = lxml_view(p["dtd"])
     dtd = DtdParser.parse(p["dtd"].encode(), "file:///c16/t.dtd")
@@ -244,42 +170,38 @@ def run_program(p):
     res["mapped"] = [class_view(c) for c in raw]
     res["docs"] = []
     res["meta"] = []
+    options = {"package": "c16gen%d" % next(_ctr), "compound_fields": bool(p.get("compound"))}
     try:
-        cfg = GeneratorConfig()
-        cfg.output.package = "gen"
-        cfg.output.compound_fields.enabled = bool(p.get("compound"))
-        cont = ClassContainer(config=cfg)
-        cont.extend(raw)
-        cont.process()
-        classes = list(cont)
-        res["processed"] = [class_view(c) for c in classes]
-        f = Filters(cfg)
-        src = render_module(f, classes)
-        res["src"] = src
-        name = f"c16gen_{next(_ctr)}"
-        mod = types.ModuleType(name)
-        sys.modules[name] = mod
-        exec(compile(src, name, "exec"), mod.__dict__)
-        ctx = XmlContext()
-        for c in all_classes(mod):
-            res["meta"].append(meta_view(ctx, c))
-        root_cls = None
-        root_local = p["root"].split(":")[-1]
-        for c in classes:
-            if c.name == root_local or c.qname == root_local or c.qname.endswith("}" + root_local):
-                root_cls = getattr(mod, f.class_name(c.name))
-                break
-        if root_cls is None:
-            raise RuntimeError("no class generated for the root element " + p["root"])
-        res["gen"] = {"ok": True, "root_class": root_cls.__name__}
+        with CR.CodegenRun({"t.dtd": p["dtd"]}, options, timeout=60) as run:
+            r = run.result
+            if r["status"] != "ok":
+                e = r.get("error") or {}
+                res["gen"] = {"ok": False, "err": e.get("type", r["status"]), "msg": str(e.get("message"))[:500],
+                              "tb": str(e.get("traceback"))[-1500:], "stage": r.get("stage")}
+                return res
+            res["processed"] = [class_view(c) for c in (run.classes or [])]
+            run.import_modules()
+            classes = [c for _m, _q, c in run.python_classes() if dataclasses.is_dataclass(c)]
+            ctx = XmlContext()
+            metas = [(c, meta_view(ctx, c)) for c in classes]
+            res["meta"] = [m for _c, m in metas]
+            root_local = p["root"].split(":")[-1]
+            root_cls = None
+            for c, m in metas:
+                if "." not in c.__qualname__ and (m["qname"] == root_local or m["qname"].endswith("}" + root_local)):
+                    root_cls = c
+                    break
+            if root_cls is None:
+                raise RuntimeError("no class generated for the root element " + p["root"])
+            res["gen"] = {"ok": True, "root_class": root_cls.__name__, "files": r.get("files")}
+            pcfg = ParserConfig(**STRICT)
+            ns_map = {k: v for k, v in p.get("ns_map") or []} or None
+            for doc in p.get("docs", []):
+                res["docs"].append(roundtrip(ctx, pcfg, root_cls, doc, ns_map))
     except Exception as e:  # generation / import failure is an outcome, not a harness error
         import traceback
         res["gen"] = {"ok": False, "err": type(e).__name__, "msg": str(e)[:500], "tb": traceback.format_exc()[-1500:]}
-        return res
-    pcfg = ParserConfig(**STRICT)
-    ns_map = {k: v for k, v in p.get("ns_map") or []} or None
-    for doc in p.get("docs", []):
-        res["docs"].append(roundtrip(ctx, pcfg, root_cls, doc, ns_map))
+        res["docs"] = []
     return res
 
 
